@@ -171,6 +171,30 @@ def create_source(ev):
     return "var %s = %s;" % (ev["nm"], "[" + obj + "]" if ev["wrap"] else obj)
 
 
+# scripts that declare or merely mention a name (what each form MEANS for the binding is said by spec/C11.tla DeclEffect)
+DECL_SOURCES = {
+    "var": "var %(n)s;",
+    "block": "{ var %(n)s; }",
+    "deadblock": "var dq = 1; if (dq > 1) { var %(n)s; } dq + 1;",
+    "forinit": "for (var %(n)s; false; ) { }",
+    "forin": "for (var %(n)s in {}) { }",
+    "multi": "var zz, %(n)s;",
+    "trycatch": "try { var %(n)s; } catch (e) { }",
+    "while": "while (false) { var %(n)s; }",
+    "switch": "switch (1) { case 2: var %(n)s; }",
+    "labeled": "lbl: { var %(n)s; }",
+    "evalvar": "eval('var %(n)s;');",
+    "selfinit": "var %(n)s = %(n)s;",
+    "other": "var zz;",
+    "fnlocal": "(function () { var %(n)s = 1; return %(n)s; })();",
+    "fnparam": "(function (%(n)s) { %(n)s = 1; return %(n)s; })(2);",
+    "typeof": "typeof %(n)s;",
+    "catchparam": "try { throw 1; } catch (%(n)s) { }",
+    "fndecl": "function gq() { var %(n)s = 3; return %(n)s; } gq();",
+    "newfunc": "new Function('var %(n)s = 1; return %(n)s;')();",
+}
+
+
 def call_source(form, args):
     a = [js_lit(x) for x in args]
     if form == "call":
@@ -264,6 +288,10 @@ def run_trace(case, api):
                 src = "%s.push(%d);" % (ev["nm"], ev["x"])
             else:
                 src = "%s.zk = %d;" % (ev["nm"], ev["x"])
+            r = run(lambda: ctx.eval(src))
+            ev["o"] = r["o"]
+        elif op == "evaldecl":
+            src = DECL_SOURCES[ev["form"]] % {"n": ev["nm"]}
             r = run(lambda: ctx.eval(src))
             ev["o"] = r["o"]
         elif op == "defprops":
